@@ -54,8 +54,8 @@ func anchorFuncs(spec *propSpec, p *Prog) ([]*FuncInfo, []string) {
 		ids[id] = true
 	}
 	for _, o := range c.Obs {
-		if isPackageScanRule(o.Rule) {
-			continue // package-wide scanning rules name every function they visit: not anchors of the property
+		if isPackageScanRule(o.Rule) || strings.Contains(o.Rule, ".shared.") {
+			continue // package-wide scanning rules and pooled rules name every function they visit: not anchors of the property
 		}
 		k := o.Key
 		for _, sep := range []string{":", "#", "~"} {
@@ -515,6 +515,7 @@ func runMutantWorker(inPath, outPath, prop, repo string) int {
 	spec := registry[prop]
 	var out []mutantResult
 	base0 := guardLoad(repo, "")
+	baseAll := map[string]map[string]bool{}
 	for _, w := range ws {
 		r := mutantResult{mutant: w.mutant}
 		abs := filepath.Join(repo, w.File)
@@ -562,6 +563,42 @@ func runMutantWorker(inPath, outPath, prop, repo string) int {
 			if len(c.Undec) > 0 {
 				r.Status, r.By = "detected", "UNDECIDED: "+oneLine(c.Undec[0])
 				return
+			}
+			if os.Getenv("DMVERIF_MUT_ALLPROPS") != "" {
+				// triage mode: a mutant counts as surviving only if no property's check reports it
+				var ids []string
+				for id := range registry {
+					if id != prop {
+						ids = append(ids, id)
+					}
+				}
+				sort.Strings(ids)
+				for _, q := range ids {
+					if baseAll[q] == nil {
+						cb := newCtx(q, "mutant", base0)
+						func() {
+							defer func() { _ = recover() }()
+							registry[q].runAll(cb)
+						}()
+						baseAll[q] = map[string]bool{}
+						for _, o := range cb.Obs {
+							if o.Verdict == VIOLATION {
+								baseAll[q][o.Rule+"|"+o.Key] = true
+							}
+						}
+					}
+					cq := newCtx(q, "mutant", p)
+					func() {
+						defer func() { _ = recover() }()
+						registry[q].runAll(cq)
+					}()
+					for _, o := range cq.Obs {
+						if o.Verdict == VIOLATION && !baseAll[q][o.Rule+"|"+o.Key] {
+							r.Status, r.By = "detected", o.Rule
+							return
+						}
+					}
+				}
 			}
 			r.Status = "survived"
 		}()
